@@ -72,7 +72,7 @@ func (c *Chain) ftAbs() (ftState, []string) {
 	return st, bad
 }
 
-var ftSegs = []string{"home", "docs", "pics", "a", "b", "日本", "x y", "", "s"}
+var ftSegs = []string{"home", "docs", "pics", "a", "b", "日本", "x y", "", "s", "50% off", "100%", "a%%b", "%s", "%5d", "tab\there", "quote\"q", "é"}
 
 func randPath(r *rand.Rand) string {
 	n := 1 + r.Intn(4)
